@@ -17,10 +17,16 @@ CHECKS = {
              'protocols, A entry binding) is compiled by hidc from the working tree and run on the exploring VM at several word '
              'sizes; the committed event trace must equal the reference interpreter trace and no monitor may fire on any explored '
              '(including speculative) state.'),
+    'C02': dict(
+        level='model_checking', design='6/C02',
+        technique='explicit-state exploration of all Turing-jump futures on a VM + bounded-exhaustive enumeration of try bodies, try histories and ?? uses + reference interpreter that resolves the same choice points by backtracking',
+        text='Every enumerated time-travel program (T: single try with all bodies of <=2 atoms incl. preempt/loops/defeat-function calls '
+             'x undo/stop x handler bodies; H: ordered pairs/triples of tries in line, in a loop and across calls; Q: ?? operands x use '
+             'positions; P: preemptive defeat functions x continuations, checked and unchecked) is run with every future of every '
+             'Turing jump explored; the committed trace must equal the trace of the backtracking reference interpreter.'),
 }
 
 PENDING = {
-    'C02': 'check under construction in this round (not a claim that the technique cannot apply)',
     'C03': 'check under construction in this round (not a claim that the technique cannot apply)',
     'C04': 'check under construction in this round (not a claim that the technique cannot apply)',
     'C05': 'check under construction in this round (not a claim that the technique cannot apply)',
